@@ -734,7 +734,7 @@ def rules(repo, tier):
     from ..callsig import rule_callsig
     from ..docsig import rule_docsig
     from ..axisdefault import rule_axisdefault
-    return list(_rules_core(repo, tier)) + [rule_memo(repo, 'C06.MEMO', 'history independence: nothing computed from the contents of a tensor argument is kept '
+    return list(_rules_core(repo, tier)) + __import__('sa.core', fromlist=['x']).reid([__import__('sa.rules.c05', fromlist=['x']).rule_clone(repo), __import__('sa.rules.c05', fromlist=['x']).rule_alpha(repo), __import__('sa.rules.c12', fromlist=['x']).rule_negdim(repo, tier), __import__('sa.rules.c12', fromlist=['x']).rule_order(repo, tier), __import__('sa.rules.c12', fromlist=['x']).rule_opview(repo, tier)], 'C06') + [rule_memo(repo, 'C06.MEMO', 'history independence: nothing computed from the contents of a tensor argument is kept '
                                                       'under the identity, address or version of that tensor, in module-level storage, or published from a generator '
                                                       'before it is complete - a later call with the same object and other contents must not be answered from it',
                                                       ['pypose.lietensor.lietensor', 'pypose.lietensor.operation', 'pypose.lietensor.basics', 'pypose.lietensor.utils', 'pypose.lietensor.convert'], floor=3),
